@@ -1165,7 +1165,7 @@ CONSTANTS
 %s
 CHECK_DEADLOCK FALSE
 """
-MPCL_ALL_KINDS = '{"const", "lit", "bin", "cmp", "logic", "neg", "shift", "cast", "if", "ifnest", "ifret", "loop", "loopret", "nest", "shadow", "expr3", "arr", "mat", "call", "struct"}'
+MPCL_ALL_KINDS = '{"const", "lit", "bin", "cmp", "logic", "neg", "shift", "cast", "if", "ifnest", "ifret", "loop", "loopret", "nest", "shadow", "expr3", "arr", "mat", "call", "struct", "tuple"}'
 
 
 def mpcl_cases(ctx, name, widths, nstmts, num, kinds=MPCL_ALL_KINDS, limit=None):
@@ -1228,6 +1228,12 @@ def c03(ctx):
     # successor states): comparisons, ifs, early returns and shadowing on their own
     cases += mpcl_cases(ctx, "mpcl-gen-g", "{3, 8}", 5, 1500 if thorough else 300, limit=5000 if thorough else 700,
                         kinds='{"cmp", "shadow", "if", "ifret"}')
+    # tuple assignments (swaps of variables, of the two fields of a struct, of two array elements; the two results of
+    # a call stored into fields / elements): every right-hand side is evaluated before any store
+    cases += mpcl_cases(ctx, "mpcl-gen-k", "{3, 8}", 5, 1200 if thorough else 250, limit=4000 if thorough else 500,
+                        kinds='{"tuple", "struct"}')
+    cases += mpcl_cases(ctx, "mpcl-gen-l", "{3, 8}", 5, 1200 if thorough else 250, limit=4000 if thorough else 500,
+                        kinds='{"tuple", "arr"}')
     cf = os.path.join(ctx.tmp, "c03cases.ndjson")
     write_ndjson(cf, cases)
     rf = os.path.join(ctx.tmp, "c03res.ndjson")
